@@ -105,13 +105,31 @@ Lemma sg_nil f str sz t lists adv :
   sg (S f) str sz t lists [] adv =
   Ok (TList sz str t, map (fun o => match o with Some l => mk_list str l | None => VNone end) lists).
 Proof. reflexivity. Qed.
-Lemma sg_IAt f str sz t lists i tail adv :
+Definition has_none (lists : list (option (list value))) : bool :=
+  existsb (fun o : option (list value) => match o with None => true | Some _ => false end) lists.
+Definition has_array (items : list item) : bool :=
+  existsb (fun it => match it with IArray _ => true | _ => false end) items.
+(* (the first test: a missing list, an integer, and an index array still to come: left unspecified) *)
+Lemma sg_IAt_gen f str sz t lists i tail adv :
   sg (S f) str sz t lists (IAt i :: tail) adv =
+  if (match adv with None => true | Some _ => false end) && has_none lists && has_array tail then Err EFuel else
   do _ <- szchk sz i;
   do xs <- mapM (fun l => do j <- wrap_at (zlen l) i; get l j) (present lists);
   do r <- se_ f t xs tail (present_adv lists adv);
   Ok (fst r, reinsert lists (snd r)).
 Proof. reflexivity. Qed.
+Lemma sg_IAt f str sz t lists i tail adv :
+  has_none lists && has_array tail = false ->
+  sg (S f) str sz t lists (IAt i :: tail) adv =
+  do _ <- szchk sz i;
+  do xs <- mapM (fun l => do j <- wrap_at (zlen l) i; get l j) (present lists);
+  do r <- se_ f t xs tail (present_adv lists adv);
+  Ok (fst r, reinsert lists (snd r)).
+Proof.
+  intros H. rewrite sg_IAt_gen. rewrite <- andb_assoc, H, andb_false_r. reflexivity.
+Qed.
+Lemma has_none_somes ls : has_none (map Some ls) = false.
+Proof. unfold has_none. induction ls as [|l ls IH]; [reflexivity|]. cbn [map existsb]. exact IH. Qed.
 Lemma sg_IRange f str sz t lists a b s tail adv :
   sg (S f) str sz t lists (IRange a b s :: tail) adv =
   let step := stepof s in
